@@ -25,7 +25,9 @@ EXPLANATION = (
     "unchanged) passes it through _fixStringValue; (R5) the flavor, scope "
     "and data type keywords tomof() can emit are in the compiler's reserved "
     "table and among the alternatives of p_flavor/p_scopeElement/p_dataType. "
-    "Does not decide equality of the recompiled object, folding at every "
+    "(R6) every slot of the 7 CIM object classes that MOF can express is "
+    "read by its tomof() (frozen table of the slots MOF has no syntax for, "
+    "one reason each). Does not decide equality of the recompiled object, folding at every "
     "maxline, or numeric literal round trips.")
 ASSUMPTIONS = [
     "PLY matches tokens with the patterns given in the t_* docstrings / "
@@ -34,6 +36,29 @@ ASSUMPTIONS = [
 
 OBJ = 'pywbem/_cim_obj.py'
 MOF = 'pywbem/_mof_compiler.py'
+
+
+MOF_CLASSES = ['CIMInstance', 'CIMClass', 'CIMProperty', 'CIMMethod',
+               'CIMParameter', 'CIMQualifier', 'CIMQualifierDeclaration']
+# attributes MOF (DSP0004 2.x) has no syntax for - one reason each
+NOT_IN_MOF = {
+    ('*', 'path'): 'a MOF declaration carries no host/namespace path '
+                   '(the namespace comes from #pragma namespace / the '
+                   'compile target)',
+    ('*', 'class_origin'): 'computed by the server from the hierarchy, not '
+                           'declared',
+    ('*', 'propagated'): 'computed by the server from the hierarchy, not '
+                         'declared',
+    ('*', 'embedded_object'): 'expressed through the EmbeddedObject / '
+                              'EmbeddedInstance qualifiers',
+    ('CIMParameter', 'value'): 'DSP0004 2.x has no parameter default value '
+                               'syntax; the attribute is for InvokeMethod',
+    ('CIMQualifierDeclaration', 'toinstance'): 'ToInstance is a CIM-XML '
+                                               'flavor, not a DSP0004 MOF '
+                                               'flavor keyword',
+    ('CIMQualifier', 'toinstance'): 'ToInstance is a CIM-XML flavor, not a '
+                                    'DSP0004 MOF flavor keyword',
+}
 
 
 def replace_pairs(func):
@@ -95,8 +120,36 @@ def run(repo, rep, tier):
     r3 = rep.rule('C08.R3', 'no arithmetic slicing of escaped text')
     r4 = rep.rule('C08.R4', 'quoted tokens are normalised')
     r5 = rep.rule('C08.R5', 'keyword tables agree')
+    r6 = rep.rule('C08.R6', 'every MOF-expressible attribute reaches '
+                  'tomof()')
     obj = repo.module(OBJ)
     mof = repo.module(MOF)
+    # ---- R6 ---------------------------------------------------------------
+    for cname in MOF_CLASSES:
+        cls = repo.cls(OBJ, cname)
+        f = cls.methods.get('tomof')
+        if f is None:
+            raise AnalysisError('%s.tomof vanished' % cname)
+        r6.sites += 1
+        r6.functions.add(f.fq)
+        used = {n.attr for n in walk_no_nested(f.node)
+                if isinstance(n, ast.Attribute) and
+                isinstance(n.value, ast.Name) and n.value.id == 'self'}
+        for sl in cls.slots() or []:
+            a = sl.lstrip('_')
+            why = NOT_IN_MOF.get((cname, a)) or NOT_IN_MOF.get(('*', a))
+            if why:
+                r6.ob(True, '%s.%s:exempt' % (cname, a),
+                      {'class': cname, 'slot': a, 'not_expressible': why})
+                continue
+            ok = a in used or sl in used
+            r6.ob(ok, '%s.%s' % (cname, a), {'class': cname, 'slot': a})
+            if not ok:
+                rep.finding(r6, f.qualname, a, 'slot-not-written', OBJ,
+                            f.node.lineno, 'attribute %r of %s does not take '
+                            'part in its MOF representation: tomof() loses '
+                            'it and the recompiled object differs'
+                            % (a, cname))
     esc = repo.func(OBJ, '_mof_escaped')
     fix = repo.func(MOF, '_fixStringValue')
     r1.functions.update([esc.fq, fix.fq])
